@@ -1300,6 +1300,12 @@ func phiLeaves(v ssa.Value) []phiLeaf {
 // ranged-over map satisfies vm.
 func RangeValueOf(vm VM) VM {
 	return func(v ssa.Value) bool {
+		if u, ok := strip(v).(*ssa.UnOp); ok && u.Op == token.MUL {
+			// slice range: *(&X[rangeindex+1])
+			if ia, ok := u.X.(*ssa.IndexAddr); ok && isRangeIndex(ia.Index) {
+				return vm(ia.X)
+			}
+		}
 		e, ok := strip(v).(*ssa.Extract)
 		if !ok || e.Index != 2 {
 			return false
